@@ -1138,8 +1138,20 @@ fn rand_program(rng: &mut Rng, n: usize) -> Vec<POp> {
                 let modulus = 1 + rng.below(n.min(3) as u64) as usize;
                 let none_rem = if rng.chance(1, 3) { Some(rng.below(modulus as u64 + 1) as usize) } else { None };
                 let mut dgs: Vec<(usize, DG)> = (0..modulus).filter(|k| Some(*k) != none_rem).map(|k| (k, rand_dg(rng))).collect();
-                // at most one anomaly per call, so that HashMap iteration order cannot matter
-                match rng.below(8) {
+                // at most one anomaly per call, so that HashMap iteration order cannot matter. A datagram whose
+                // STM size gives an invalid sampling frequency is an anomaly too (it is refused when its
+                // operation generator is built): keep at most one of those and plant nothing else next to it
+                let fails = |d: &DG| matches!(d, DG::SineGainStm(_, 3) | DG::GainStm(7, _) | DG::FociStm(11 | 3) | DG::Bad);
+                let mut seen_failing = false;
+                for (_, d) in dgs.iter_mut() {
+                    if fails(d) {
+                        if seen_failing {
+                            *d = DG::Null;
+                        }
+                        seen_failing = true;
+                    }
+                }
+                match if seen_failing { 7 } else { rng.below(8) } {
                     0 if !dgs.is_empty() => {
                         dgs.remove(0); // unknown key
                     }
